@@ -29,5 +29,25 @@ Definition C11_no_panic_collection :=
    definition of [run], panic-free; what is proved is that its conservation laws hold (C03) *)
 Definition C11_resource_layer := RV.Props.C03.C03_step_conservation_fungible.
 
+(* second pinned collection (build session 2): panic-freedom / totality theorems of the parts of
+   the engine a transaction's argument payloads, addresses and keys pass through *)
+Require RV.Props.C13 RV.Props.C15 RV.Props.C16 RV.Props.C21 RV.Props.C22 RV.Props.C28 RV.Props.C29 RV.Props.C31 RV.Props.C42.
+Definition C11_no_panic_collection_2 :=
+  ( RV.Props.C13.C13_no_underflow,             (* SubstateLocks: unlock of an open handle, counters *)
+    RV.Props.C15.C15_encode_total_iff,         (* RocksDB key encoding: panics exactly on the stated class *)
+    RV.Props.C16.C16_to_db_total,              (* SpreadPrefixKeyMapper::to_db_sort_key *)
+    RV.Props.C21.C21_total,                    (* SBOR decoding of arbitrary bytes: an error or a value *)
+    RV.Props.C21.C21_traverser_total,          (* SBOR traverser on arbitrary bytes *)
+    RV.Props.C22.C22_streaming_total,          (* streaming payload validation against a schema *)
+    RV.Props.C28.C28_parse_total_address,      (* Bech32 address parsing of arbitrary text *)
+    RV.Props.C28.C28_parse_total_localid,      (* NonFungibleLocalId::from_str *)
+    RV.Props.C29.C29_parse_total,              (* UtcDateTime::from_str (after fix 1f3edf7213) *)
+    RV.Props.C31.C31_lex_total,                (* manifest lexer *)
+    RV.Props.C31.C31_snippet_total,            (* diagnostic snippet rendering *)
+    RV.Props.C31.C31_parse_total,              (* manifest parser *)
+    RV.Props.C31.C31_id_validator_no_panic,    (* BasicManifestValidator *)
+    RV.Props.C42.C42_index_update_never_panics ). (* consensus manager validator index update *)
+
 Print Assumptions C11_no_panic_collection.
 Print Assumptions C11_resource_layer.
+Print Assumptions C11_no_panic_collection_2.
